@@ -29,7 +29,7 @@ RULE = (
 )
 REQUIRED = {"configurations_compared": 24, "digest_fields_compared": 300,
             "configurations_where_seed_matters": 18}
-TIMEOUT = {"quick": 1700, "thorough": 3500}
+TIMEOUT = {"quick": 1700, "thorough": 7000}
 ASSUMPTIONS = ["the environment (and its action-space sampler) is seeded by the "
                "harness before the call, as the statement requires",
                "XLA CPU with one intra-op thread"]
@@ -66,7 +66,7 @@ def base_cfg(algo, seed, rng):
 def gen_cases(tier, seed):
     rng = np.random.default_rng(seed + 909)
     cases = []
-    reps = 1 if tier == "quick" else 4
+    reps = 1 if tier == "quick" else 8
     for r in range(reps):
         for algo in ALGOS:
             cases.append(dict(cfg=base_cfg(algo, int(rng.integers(1, 1 << 16)), rng),
